@@ -132,6 +132,8 @@ def run(build, r, ctx, n_points_min=2):
         ref = build(r["obj"])
         before = extract(ref)
         obj = build(r["obj"])
+        if r.get("prequery"):
+            extract(obj)     # every lazily computed value (vertices, polygons, occupancies) exists before the motion
         moved = apply(obj, t, a)
         after = extract(moved)
         compare(before, after, t, a)
@@ -154,7 +156,7 @@ def run(build, r, ctx, n_points_min=2):
 
 def facet(name, obj_strategy, build, quick, thorough, rule, n_points_min=2):
     def strat(tier):
-        return st.fixed_dictionaries({"obj": obj_strategy(tier), "m": motion()})
+        return st.fixed_dictionaries({"obj": obj_strategy(tier), "m": motion(), "prequery": st.booleans()})
 
     def check(r, ctx):
         run(build, r, ctx, n_points_min)
@@ -213,9 +215,15 @@ def s_obstacle(role):
 
 def s_lanelet(tier):
     def attach(pl):
-        return st.one_of(st.none(), st.tuples(gg.point(1e3), gg.point(1e3))).map(
-            lambda sl: {"id": 5, "left": pl["left"], "right": pl["right"], "center": pl["center"],
-                        "stop_line": None if sl is None else {"start": sl[0], "end": sl[1], "marking": "SOLID"}})
+        # the centre line is an independent constructor argument: in half of the cases it is NOT the mid line
+        def centre(f):
+            if f is None:
+                return pl["center"]
+            return [[r[0] + f * (l[0] - r[0]), r[1] + f * (l[1] - r[1])] for l, r in zip(pl["left"], pl["right"])]
+        return st.tuples(st.one_of(st.none(), st.tuples(gg.point(1e3), gg.point(1e3))),
+                         st.one_of(st.none(), st.floats(0.15, 0.85))).map(
+            lambda t: {"id": 5, "left": pl["left"], "right": pl["right"], "center": centre(t[1]),
+                       "stop_line": None if t[0] is None else {"start": t[0][0], "end": t[0][1], "marking": "SOLID"}})
     return gg.lanelet_polylines(2, 8, 0.5, 30.0, lim=1e3).flatmap(attach)
 
 
